@@ -33,6 +33,7 @@ of a history, counted, never judged.
 Seams: ``urllib.request.build_opener`` returns a recorder (no sockets, no ssl set-up); ``random.seed(0)``.
 """
 
+import base64
 import copy
 import itertools
 import json
@@ -87,6 +88,9 @@ REQUIRED_FEATURES = [
     "response:json-falsy:with-processors", "response:json-falsy:raw:with-processors",
     "response:non-json:raw:with-processors", "response:non-json:undefined-not-judged",
     "response:empty-body:2-processors",
+    "auth:basic:b64-sextet-62", "auth:basic:b64-sextet-63", "auth:basic:non-ascii",
+    "auth:client:b64-sextet-62", "auth:client:b64-sextet-63", "auth:client:non-ascii",
+    "auth:clone-adapter:b64-sextet-62+63",
     "shared-caller-object-reused", "root:str", "root:str-slash", "root:list", "root:dict-noids",
     "verb:get", "verb:post", "verb:put", "verb:delete", "verb:patch",
 ]
@@ -103,9 +107,12 @@ PREFIX_MAP = {"compA": "/cmpA", "compB": "cmpB/", "compE": "", "other": "/other"
 ENTRY_COMPONENT = {"m_plain": None, "m_a": "compA", "m_b": "compB", "m_e": "compE"}
 
 P1, P2, PQ, PC1, PC2 = (["prefix", p] for p in ("/p1", "p2/", "/q", "/c1", "/c2"))
-BASIC = ["basic", "usr", "pw:é"]
+# Credentials are chosen so that their *standard* base64 text contains '/' (sextet 63), '+' (sextet 62) and
+# the encoding of a non-ASCII character: an encoder using another alphabet (url-safe '-', '_') or another
+# charset is visible only then.  ``_b64_profile`` measures it; the features are REQUIRED.
+BASIC = ["basic", "ab?", "p>:\u00ff"]
 TOKEN = ["token", "tok123"]
-CLIENT = ["client", "cname", "cid", "csecret"]
+CLIENT = ["client", "cname", "c?d", "s>cret\u00ff"]
 HDR = ["hdr", "X-Layer", "on"]
 RS = ["resp", "s"]
 COMMON_W = [PQ, RS]          # the layers of the shared list object used by wrap "list*"
@@ -473,6 +480,13 @@ class World:
                 cf.add("chain:resp-under-resp")
             if fam.contributors(node, comp) >= 2:
                 cf.add("chain:2+contributors")
+            for l in chain:
+                if l[0] in ("basic", "client"):
+                    prof = _b64_profile(l[0], hm.expected_auth([l])[1])
+                    cf |= prof
+                    cn = n if n["kind"] == "conn" else fam.nodes[n["conn"]]
+                    if l[0] == "basic" and n["made_by"].startswith("clone") and len(prof) >= 2 and l in cn["own"]:
+                        cf.add("auth:clone-adapter:b64-sextet-62+63")
             cf.add("entry:conn" if entry == "conn" else "entry:wrapper")
             if comp is not None:
                 cf.add("entry:wrapper+component-prefix" if PREFIX_MAP[comp] else "entry:wrapper+empty-prefix")
@@ -576,6 +590,18 @@ def _shape_features(shp):
             _SHAPE_FEATS.clear()
         k = _SHAPE_FEATS[id(shp)] = (shp, f)
     return k[1]
+
+
+def _b64_profile(kind, creds):
+    std = base64.b64encode(creds.encode("utf-8")).decode("ascii")
+    f = set()
+    if "+" in std:
+        f.add(f"auth:{kind}:b64-sextet-62")
+    if "/" in std:
+        f.add(f"auth:{kind}:b64-sextet-63")
+    if any(ord(c) > 127 for c in creds):
+        f.add(f"auth:{kind}:non-ascii")
+    return f
 
 
 def _normalise_ret(ret, raw_obj, depth=99):
